@@ -50,6 +50,12 @@ class BinarySearchTreeAdapted1D(Sampling):
             )
         self._coordinates_left_axis = 0, self.origin_coordinate - 1
         self._coordinates_right_axis = self.origin_coordinate + 1, len(self.axis) - 1
+        # cell boundaries as defined by the grid (they are not the arithmetic means for every grid)
+        self._cell_boundaries = (
+            [self.axis[0]]
+            + [grid.middle(x, xp) for x, xp in zip(self.axis, self.axis[1:])]
+            + [self.axis[-1]]
+        )
 
     @lru_cache(maxsize=2**18)
     def _compute_probability(self, a, b):
@@ -70,9 +76,7 @@ class BinarySearchTreeAdapted1D(Sampling):
         while left != right:
             middle = (left + right) // 2
             l, r = left, middle  # choose left interval by default
-            a, b = 0.5 * (axis[max(0, l - 1)] + axis[l]), 0.5 * (
-                axis[r] + axis[min(len(axis) - 1, r + 1)]
-            )
+            a, b = self._cell_boundaries[l], self._cell_boundaries[r + 1]
             p = self._compute_probability(a, b)
 
             if current_p > p:
